@@ -1,9 +1,10 @@
 (* C16 -- readspec returns each requested spectrum in request order, unshifted.
    Property theorems only; each is closed by `exact` and followed by Print Assumptions.
-   Model: C16/Model.v (M = transliteration of readspec / spec_append, S = specification). *)
+   Model: C16/Model.v (M = transliteration of readspec / spec_append, S = specification).
+   The gen_... expressions are GENERATED from /repo on every run (Generated/Readspec.v, translate/c16.py). *)
 From Coq Require Import ZArith List Bool Arith Permutation.
 Import ListNotations.
-From PV Require Import C16.Model C16.ListLemmas C16.Proofs.
+From PV Require Import Generated.Readspec C16.Model C16.ListLemmas C16.Proofs C16.Source.
 Open Scope nat_scope.
 
 (* ---------------------------------------------------------------- plate-MJD keys *)
@@ -230,6 +231,45 @@ Theorem C16_append_chain_pads_right : forall (w : what) (blocks : list img),
   Some (if padded w then map (pad (list_max_nat (map (@length Z) (concat blocks)))) (concat blocks) else concat blocks).
 Proof. exact accumulate_spec. Qed.
 Print Assumptions C16_append_chain_pads_right.
+
+(* ---------------------------------------------------------------- tie to the source text (generated expressions) *)
+
+(* the key arithmetic in the source is the model's *)
+Theorem C16_source_key : forall p m k : Z,
+  gen_key p m = key p m /\ gen_key_plate k = key_plate k /\ gen_key_mjd k = key_mjd k.
+Proof. exact (fun p m k => conj (src_key p m) (conj (src_key_plate k) (src_key_mjd k))). Qed.
+Print Assumptions C16_source_key.
+
+(* ... hence the source's own expressions decode their own keys *)
+Theorem C16_source_key_roundtrip : forall p m : Z,
+  (0 <= m < 2 ^ 16)%Z -> gen_key_plate (gen_key p m) = p /\ gen_key_mjd (gen_key p m) = m.
+Proof. exact key_decode. Qed.
+Print Assumptions C16_source_key_roundtrip.
+
+(* every row subscript in the source (spPlate HDUs, photoPlate, spZbest) is fiber - 1 *)
+Theorem C16_source_rows : forall fiber : Z,
+  gen_img_row fiber = (fiber - 1)%Z /\ gen_photo_row fiber = (fiber - 1)%Z /\
+  gen_z_row (gen_zbest_fiber fiber) = (fiber - 1)%Z.
+Proof. exact src_rows. Qed.
+Print Assumptions C16_source_rows.
+
+Theorem C16_source_row1 : forall (rows : img) (fiber : Z),
+  row1 rows fiber = if (gen_img_row fiber <? 0)%Z then None else nth_error rows (Z.to_nat (gen_img_row fiber)).
+Proof. exact src_row1. Qed.
+Print Assumptions C16_source_row1.
+
+(* spec_append: the offsets, the common width and the two slice assignments of the source are the model's *)
+Theorem C16_source_spec_append : forall (a b : img) (s n1 n2 w1 w2 : Z),
+  Z.of_nat (nadd1_of s) = gen_sa_nadd1 s /\ Z.of_nat (nadd2_of s) = gen_sa_nadd2 s /\
+  Z.of_nat (Nat.max (width a + nadd1_of s) (width b + nadd2_of s)) = gen_sa_maxpix (Z.of_nat (width a)) (Z.of_nat (width b)) s /\
+  gen_sa_block1 n1 n2 w1 w2 s = (0, n1, gen_sa_nadd1 s, gen_sa_nadd1 s + w1)%Z /\
+  gen_sa_block2 n1 n2 w1 w2 s = (n1, n1 + n2, gen_sa_nadd2 s, gen_sa_nadd2 s + w2)%Z /\
+  gen_sa_nrows n1 n2 = (n1 + n2)%Z.
+Proof.
+  exact (fun a b s n1 n2 w1 w2 =>
+           conj (proj1 (src_nadd s)) (conj (proj2 (src_nadd s)) (conj (src_maxpix a b s) (src_blocks n1 n2 w1 w2 s)))).
+Qed.
+Print Assumptions C16_source_spec_append.
 
 (* ---------------------------------------------------------------- non-vacuity *)
 
